@@ -27,7 +27,7 @@ TC_FIELD = {"text_font": "font", "text_font_size": "size", "text_format": "forma
 
 def build(tier, seed):
     quick = tier == "quick"
-    T = 120 if quick else 600
+    T = 240 if quick else 600
     obs = []
     # O1: recycling algebra
     for R, C in ((1, 1), (1, 3), (2, 1), (2, 3), (3, 2)):
@@ -132,16 +132,14 @@ def expected(name, shape, r, c):
                                    "border_color_left", "border_color_right", "border_color_top", "border_color_bottom"]:
         setattr(me, name, attr_value(name, shape))
     rows = []
-    saved = (attributes.TextContent, attributes.Cell, attributes.Row, attributes.Border)
-    attributes.TextContent = lambda **kw: NS(kind="text", **kw)
-    attributes.Border = lambda **kw: NS(kind="border", **kw)
-    attributes.Cell = lambda **kw: NS(kind="cell", **kw)
-    attributes.Row = lambda **kw: (rows.append(kw), NS(_as_rtf=lambda: []))[1]
+    saved = swapped((TextContent, lambda **kw: NS(kind="text", **kw)), (Border, lambda **kw: NS(kind="border", **kw)),
+                    (Cell, lambda **kw: NS(kind="cell", **kw)), (Row, lambda **kw: (rows.append(kw), NS(_as_rtf=lambda: []))[1]))
+    saved.__enter__()
     try:
         df = FakeFrame({"c%%d" %% j: ["t%%d%%d" %% (o + i, j) for i in range(hh)] for j in range(NCOL)})
         TableAttributes._encode(me, df, [1.0, 2.0, 3.0], row_offset=o)
     finally:
-        attributes.TextContent, attributes.Cell, attributes.Row, attributes.Border = saved
+        saved.__exit__()
     if len(rows) != hh:
         return False
     for i, row in enumerate(rows):
